@@ -2,9 +2,11 @@ from .common import *
 def run(tier, a=None):
     tg = ['SO2t', 'SE2t', 'SO3t', 'SE3t'] + ([] if tier == 'quick' else ['SE23t', 'SGal3t'])
     specs = [{'src': 'h_c08.cpp', 'defs': ['TAG=' + t], 'filter': ('.*' if k == 0 else 'c08_(compose|inverse|exp).*')} for k, t in enumerate(tg)]
+    # cast<>() across scalar types is a producer too: widening cast of any element valid in the narrow type (see C13 / h_xcast.cpp)
+    specs.append({'src': 'h_xcast.cpp', 'defs': [], 'mode': 'symdbg', 'filter': 'xcast_widen.*', 'label': 'xcast-debug'})
     import props.common as pc
     _o = pc.opts
     pc.opts = lambda tier, a=None: dict(_o(tier, a), approx_ok=False, lemma_ms=40000)
     return simple('C08', tier, a, specs,
         'Inductive step instead of histories: from an ARBITRARY symbolic pre-state satisfying Inv: ||rot|^2-1| <= eps (no unit-norm hypothesis), compose yields |Z|^2 = |X|^2|Y|^2 on the no-renormalisation path (whose path condition is Inv(Z)) and |Z|^2 = n f(n)^2 on the renormalisation path, where for every n in [(1-eps)^2,(1+eps)^2] the library polynomial f = approxSqrtInv gives |n f(n)^2 - 1| <= 1e-6 eps; inverse preserves |.|^2; exp yields Inv on both branches; Inv implies the acceptance predicate ||q|-1| < eps of the assertion-enabled constructors. between/plus/+=/*=/interpolation/averaging are compositions of these producers, so the deviation bound is independent of the history length.',
-        ['exact real arithmetic: rounding of each step (a few ulp = 1e-16 << eps = 2.2e-14) is outside the model', 'producers covered: exp, compose, inverse (and what is composed of them); cast/Random: see C13', 'groups: ' + ','.join(tg)])
+        ['exact real arithmetic: rounding of each step (a few ulp = 1e-16 << eps = 2.2e-14) is outside the model', 'producers covered: exp, compose, inverse (and what is composed of them); cast: widening cast<>() with the narrow type modelled by rounding variables |d| <= 2^-24 (assertion-enabled build: no raise, result within the wide threshold); Random: see C13', 'groups: ' + ','.join(tg)])
